@@ -373,4 +373,26 @@ theorem wholeChain_append (P : Params) (bs : List Block) (b : Block) :
     obtain ⟨a, b', c⟩ := ih _ h3
     exact ⟨⟨h1, h2, a⟩, b', c⟩
 
+
+theorem window_length (P : Params) (db : DB) (H : Nat) (t : Ticker) : (window P db H t).length ≤ P.avgPeriod := by
+  unfold window
+  have := cat_length (fun g => quoteAt P db g t) (fun g => quoteAt_length P db g t) (startOf P.avgPeriod H) (H + 1 - startOf P.avgPeriod H)
+  have h2 : H + 1 - startOf P.avgPeriod H ≤ P.avgPeriod := by
+    unfold startOf; split <;> omega
+  omega
+
+/-- on a series no longer than the period: unavailable below `AverageRequired` non-zero quotes, the
+    mean (zero quotes in the divisor) otherwise -/
+theorem avgOf_spec (P : Params) (l : List Nat) (hl : l.length ≤ P.avgPeriod) :
+    avgOf P l = if nonZero l < P.avgRequired then 0 else (l.sum % 18446744073709551616) / l.length := by
+  unfold avgOf
+  have := enough_iff_nonZero P.avgPeriod P.avgRequired l hl
+  by_cases h : P.avgPeriod - numberMissing P.avgPeriod l < P.avgRequired
+  · rw [if_pos h, if_pos]
+    have := (not_congr this).1 (by simpa using h)
+    omega
+  · rw [if_neg h, if_neg]
+    have := this.1 h
+    omega
+
 end Pegnet
